@@ -233,6 +233,24 @@ def extract():
        ".or(Some(sql_ast::Expr::Value(Value::Null.into())))" not in sq:
         soft("translate_expr: CASE default handling changed")
 
+    # process_concat / collect_concat_args (Model/SqlPrint.v concat_args, c_concat): flattening, CONCAT( ) vs `||`,
+    # every part through translate_expr (required strength 0)
+    cs_, ce_ = block_after(src, m, r"\bfn\s+collect_concat_args\s*\([^{]*\{")
+    if squeeze(src[cs_:ce_]) != 'match&expr.kind{rq::ExprKind::Operator{name,args}ifname=="std.concat"=>{args.iter().flat_map(collect_concat_args).collect()}_=>vec![expr],}':
+        soft("collect_concat_args no longer has the modelled body")
+    pc_, pe_ = block_after(src, m, r"\bfn\s+process_concat\s*\([^{]*\{")
+    sq = squeeze(src[pc_:pe_])
+    want_pc = ["ifctx.dialect.has_concat_function(){letconcat_args=collect_concat_args(expr);",
+               "translate_expr((*a).clone(),ctx).map(|x|FunctionArg::Unnamed(FunctionArgExpr::Expr(x.into_ast())))",
+               'sql_ast::Ident::new("CONCAT")',
+               "}else{letconcat_args=collect_concat_args(expr);letmutiter=concat_args.into_iter();letfirst_expr=iter.next().unwrap();"
+               "letmutcurrent_expr=translate_expr(first_expr.clone(),ctx)?.into_ast();forarginiter{lettranslated_arg=translate_expr(arg.clone(),ctx)?.into_ast();"
+               "current_expr=sql_ast::Expr::BinaryOp{left:Box::new(current_expr),op:BinaryOperator::StringConcat,right:Box::new(translated_arg),};}Ok(current_expr)}"]
+    if not all(w in sq for w in want_pc) or sq.count("translate_operand(") != 0:
+        soft("process_concat no longer has the modelled body")
+    if '"std.concat"=>returnOk(process_concat(&expr,ctx)?.into()),' not in squeeze(src[xs:xe]):
+        soft("translate_expr: std.concat no longer goes to process_concat")
+
     # operators.rs: translate_operator
     osrc = read_code(OPS)
     om = mask(osrc)
